@@ -7,21 +7,43 @@ import c01 as c01check
 
 LEVEL = "proof"
 MANIFEST = {
-    "technique": "Coq proof over the C01 box model (Size() transcribed separately from the encoders) + differential "
-                 "correspondence (extracted OCaml vs Go: Size, Encode, EncodeSW) + failing-input search on every node of every "
-                 "decoded tree (all registered box types) and on files / init segments / media segments / fragments",
-    "level_text": "PROOF for the modelled universe (coq/c02/C02Theorems.v): C02_leaf (bytes written = Size() for ftyp styp free "
+    "technique": "Coq proof over the C01 box model (Size() transcribed separately from the encoders) and over a Gallina model of "
+                 "the aggregates Fragment / MediaSegment / InitSegment / File built on the C05 fragment model (Size, Info, Encode, "
+                 "EncodeSW as state transformers: OptimizeTfhdTrun, SetTrunDataOffsets, mdat LargeSize, EncOptimize hand-down) + "
+                 "differential correspondence (extracted OCaml vs Go: boxes; histories of Size/Info/Encode/EncodeSW on API-built and "
+                 "decoded aggregates, bytes and mutated fields after every operation) + failing-input search on every node of every "
+                 "decoded tree and on aggregates, also after the setter calls / field updates applications make",
+    "level_text": "PROOF for the modelled universe. Boxes (coq/c02/C02Theorems.v): C02_leaf (bytes written = Size() for ftyp styp free "
                   "skip mdat mfhd tfhd tfdt trun mvhd tkhd sidx trex mdhd hdlr stts stsc stsz stco co64 stss sdtp ctts elst saiz saio sbgp prft tenc frma vmhd smhd nmhd sthd mfro mehd tfra pssh, all versions and flag sets), C02_tree (at "
                   "EVERY node of a tree of those leaves, pure containers and unknown boxes: the encoder succeeds, writes size_box "
                   "bytes, and the size field it writes is size_box; container = 8 + sum of children, also under the moov child "
-                  "re-ordering), C02_encode_w / C02_encode_sw (both encode paths, conditional on success) and C02_encode_ok (they "
-                  "do succeed). EXPLORATION for all other registered box types (per-node oracle through the Box interface) and "
-                  "for the aggregates File (both modes), InitSegment, MediaSegment, Fragment with and without trun optimisation: "
-                  "histories Size, Encode, Size, Info, Encode, EncodeSW on the real implementation.",
-    "level_note": "Trusted: as C01 (same model, same correspondence). The aggregates (Fragment/MediaSegment/InitSegment/File, "
-                  "OptimizeTfhdTrun, SetTrunDataOffsets) are NOT modelled in Coq: for them the property is only explored on "
-                  "testdata files and API-built structures. Encode-twice / Info-in-between is explored, not proved (the model's "
-                  "encoders are pure functions).",
+                  "re-ordering), C02_encode_w / C02_encode_sw (both encode paths, conditional on success) and C02_encode_ok. "
+                  "Aggregates (coq/c02/C02AggTheorems.v), for ALL fragments / segments / init segments / files of the model (any "
+                  "number and order of children in moof and traf, any trun flags, samples and write orders, optimisation on or off, "
+                  "segment mode, box-tree mode and progressive files), whenever the model of Encode / EncodeSW succeeds: "
+                  "C02_fragment / C02_segment / C02_init / C02_file (bytes written = Size() afterwards = sum of the box lengths, = "
+                  "Size() beforehand when no optimisation is asked for, every top-level box starts with a size field equal to its "
+                  "length), C02_fragment_tiled (the moof and every traf in it are containers: size field = length = 8 + sum of the "
+                  "children), C02_optimize_idem / C02_optimize_moof_idem / C02_offsets_idem (the two state changes of Encode reach a "
+                  "fixed point), C02_encode_pure / C02_encode_pure_noopt / C02_step_pure (whatever the outcome, an operation changes "
+                  "nothing but data offsets, mdat.LargeSize and - with optimisation - trun flags / first-sample-flags and tfhd flags "
+                  "/ defaults; never a version, a sample list, a tfdt, an opaque box), C02_encode_twice_* (after one successful "
+                  "Encode the structure is settled: Encode and EncodeSW write the same bytes again, Size() is their number, Info and "
+                  "Size change nothing) and C02_history_* (the same as an invariant over arbitrary histories of Size | Info | Encode "
+                  "| EncodeSW, by induction over the operation list). EXPLORATION for all other registered box types (per-node "
+                  "oracle through the Box interface) and for what the aggregate model keeps opaque (moov, styp, sidx, emsg, prft, "
+                  "senc, ... are boxes with a Size() and bytes): histories on the real implementation, incl. after setter calls "
+                  "and field updates with boundary values in every version- or width-dependent box, output re-decoded.",
+    "level_note": "Trusted: as C01 (same model, same correspondence) for boxes; for aggregates the hand transcription of "
+                  "fragment.go / moof.go / traf.go (OptimizeTfhdTrun via C05Model.optimize) / mdat.go / mediasegment.go / "
+                  "initsegment.go / file.go into coq/c02/C02AggModel.v, tied to /repo by the history correspondence on every run. "
+                  "Modelling assumptions (stated as boolean hypotheses *_wf of the theorems and checked on every correspondence "
+                  "case): a box other than tfhd/tfdt/trun/mfhd/mdat/traf/moof is opaque and stateless (Size() taken before its "
+                  "first Encode = bytes written = its size field); no mdat has lazily written data; a fragment is [boxes] moof "
+                  "[boxes] mdat [boxes]; the pointer sharing between File.Children and the segments is a flag; equal write-order "
+                  "numbers are ordered as Go's insertion sort does (up to 12 truns). The senc UseSubSampleEncryption flag set by "
+                  "Encode/Info is not modelled (senc is opaque): explored only. C12's model of the segment-mode box order is not "
+                  "linked formally; the order is transcribed again and checked by the correspondence.",
 }
 
 
@@ -33,6 +55,48 @@ def build(ctx):
     return exe1, exe2, model
 
 
+def build_agg_model():
+    amodel, err = common.build_model("c02", "C02AggExtract.v", "c02_driver.ml")
+    if amodel is None:
+        raise common.CheckError(err)
+    return amodel
+
+
+def run_agg_corr(ctx, exe2, amodel, seed, n):
+    """histories of Size/Info/Encode/EncodeSW on aggregates: real implementation vs extracted C02AggModel"""
+    rc, cases, e = sh2([exe2, "corr", "-seed", str(seed), "-n", str(n)], timeout=3000)
+    if rc != 0:
+        raise common.CheckError("harness c02 corr failed: " + e[-1000:])
+    lines = cases.splitlines()
+    res = common.run_model(amodel, cases)
+    mism = [l for l in res if not l.startswith("OK ")]
+    kinds = {}
+    for l in res:
+        p = l.split(" ")
+        if p[0] == "OK" and len(p) > 2:
+            kinds[p[2]] = kinds.get(p[2], 0) + 1
+    distinct = len(set(l.split("\t", 2)[2] for l in lines if l.count("\t") >= 2))
+    ctx.cov["evaluations"] += len(lines)
+    ctx.cov["distinct_nontrivial"] += distinct
+    stats = [l for l in e.splitlines() if l.startswith("STATS")]
+    ctx.notes["aggregate_correspondence"] = {
+        "what": "per operation of a random history of Size/Info/Encode/EncodeSW: outcome (Size() value; length, md5 and top-level box "
+                "lengths of the bytes; error; panic) and the mutated fields (trun flags/data offset/first-sample-flags, tfhd "
+                "flags/defaults, mdat LargeSize, EncOptimize) vs afrag_step / aseg_step / ainit_step / afile_step; every opaque "
+                "box is checked against the model's assumption Size()-before-first-Encode = bytes written = size field",
+        "cases": len(lines), "mismatches": len(mism), "distinct_cases": distinct, "agreeing_by_kind": kinds,
+        "harness_stats": stats[0][:1500] if stats else "",
+        "inputs": "API-built fragments (single/multi track, full/lazy/parts data, emsg/prft/free/uuid extras in fragment, moof, traf; "
+                  "1/3 wild: hand-set trun/tfhd flags, preset offsets, missing moof/mdat/tfhd, second tfhd, unnumbered trun), "
+                  "segments (0..2 sidx, 0..3 fragments), init segments and files (NewFile+AddChild+AddMediaSegment, FragEncMode "
+                  "0/1/2), each optionally after setter calls / field updates with boundary values; every testdata file < 120 kB "
+                  "decoded (both decoders) in both modes x optimisation, its first segments and fragments",
+    }
+    ctx.cov["samples"] += [l[:300] for l in lines[3:5]]
+    ctx.log("aggregate correspondence: %d histories (%d distinct), %d mismatches" % (len(lines), distinct, len(mism)))
+    return lines, mism
+
+
 def run(ctx):
     ctx.cov["trusted_base"] = common.TRUSTED_BASE_COMMON + [
         "model: coq/c01/C01Model.v (size_leaf / size_box transcribed from each Size(); raw_leaf / raw_box from each EncodeSW; "
@@ -42,10 +106,12 @@ def run(ctx):
     ctx.assumptions += ["trees come from the decoders or from the public constructors; sizes below 2^32 except mdat",
                         "the property is conditional on Encode/EncodeSW reporting success"]
     exe1, exe2, model = build(ctx)
+    amodel = build_agg_model()
     leaves, conts = c01check.model_names(model)
     ctx.notes["modelled_leaf_types"] = leaves
     ctx.notes["modelled_container_types"] = conts
     pr = ctx.proofs("c02", "C02Theorems.v")
+    pra = ctx.proofs("c02", "C02AggTheorems.v")
     n = ctx.n(5000, 150000)
     lines, mism = c01check.run_corr(ctx, exe1, model,
                                     ["-seed", str(ctx.seed + 1000), "-n", str(n), "-kinds", ",".join(leaves + conts)],
@@ -53,7 +119,8 @@ def run(ctx):
     ns = ctx.n(4000, 120000)
     fails = c01check.run_search(ctx, exe1, ["-seed", str(ctx.seed), "-n", str(ns), "-dontcare", c01check.DONTCARE], "c02")
     node_evals = ctx.notes.get("search_evaluations", 0)
-    # aggregates
+    # aggregates: model vs implementation, then the property itself on the implementation
+    alines, amism = run_agg_corr(ctx, exe2, amodel, ctx.seed + 2000, ctx.n(400, 12000))
     rc, so, e = sh2([exe2, "search", "-seed", str(ctx.seed), "-n", str(ctx.n(300, 6000))], timeout=3000)
     if rc != 0:
         raise common.CheckError("harness c02 search failed: " + e[-1000:])
@@ -84,14 +151,61 @@ def run(ctx):
         ctx.violation({"kind": "correspondence-mismatch", "correspondence": "C01Model sizes/encoders vs mp4 (harness c01 corr)",
                        "mismatches": len(mism), "first_case": by_id.get(first[1], "")[:3000], "model_says": mism[0][:3000]},
                       "model/implementation disagree on %d cases" % len(mism), no_input=True)
+    if amism and not c01check.fails_unknown(ctx):
+        by_id = {}
+        for l in alines:
+            p = l.split("\t")
+            if len(p) > 1:
+                by_id[p[1]] = l
+        first = amism[0].split(" ")
+        ctx.violation({"kind": "correspondence-mismatch", "correspondence": "C02AggModel histories vs mp4 aggregates (harness c02 corr)",
+                       "mismatches": len(amism), "first_case": by_id.get(first[1] if len(first) > 1 else "", "")[:3000],
+                       "model_says": amism[0][:3000], "corr_seed": ctx.seed + 2000, "corr_n": ctx.n(400, 12000)},
+                      "aggregate model/implementation disagree on %d histories: %s" % (len(amism), amism[0][:160]), no_input=True,
+                      name="C02_nofail_agg.json")
     ctx.proof_violation_if_broken(pr, "c02 search: %d evaluations" % ctx.notes.get("search_evaluations", 0))
+    ctx.proof_violation_if_broken(pra, "c02 search: %d evaluations" % ctx.notes.get("search_evaluations", 0))
     ctx.cov["rule"] = ("corr: as C01 (harvested boxes of modelled types, generated boxes and trees, mutants) comparing Size(), "
                        "Encode and EncodeSW outcome and bytes; search: for every accepted case of the C01 search inputs (all "
                        "registered types, both decoders) at EVERY node reachable through GetChildren: bytes written = Size() "
                        "before = after, first size field = bytes written, Encode = EncodeSW, Encode twice identical; aggregates: "
                        "every testdata file x 2 decoders x 2 encode modes x optimisation on/off and API-built init segments, "
-                       "fragments, media segments with 0..2 sidx: Size/Encode/Size/Info/Encode/EncodeSW, output tiled by its size fields")
+                       "fragments, media segments with 0..2 sidx: Size/Encode/Size/Info/Encode/EncodeSW, output tiled by its size fields; "
+                       "setters: built init segments (with edts/elst, mehd), segments (emsg, prft, sidx), files and decoded testdata "
+                       "files after 1..4 setter calls / field updates (boundary values 0, 2^31, 2^32-1, 2^32, 2^40 +-1 in every "
+                       "time/duration/size field of mvhd tkhd mdhd mehd tfdt sidx elst emsg prft, version toggles): the aggregate "
+                       "history, the output re-decoded, and the per-node oracle on a second, equal copy; "
+                       "aggregate corr: see aggregate_correspondence.inputs")
+    ctx.cov["trusted_base"] += [
+        "model: coq/c02/C02AggModel.v (hand transcription of Fragment/MediaSegment/InitSegment/File Size, Info, Encode, EncodeSW, "
+        "MoofBox.Encode, TrafBox, MdatBox, SetTrunDataOffsets; OptimizeTfhdTrun and the tfhd/tfdt/trun/mdat records and sizes "
+        "from coq/c05/C05Model.v, C05FragModel.v, C05CodecModel.v); opaque boxes are (type, Size(), bytes, error) and stateless",
+        "ocaml/c02_driver.ml, harness/c02/corr.go + setters.go (serialisation of the structures, digests of the mutated fields)",
+    ]
 
 
 def replay(ctx, path):
+    r = json.load(open(path))
+    w = r.get("witness", "") or ""
+    if r.get("kind") == "correspondence-mismatch" and "C02AggModel" in r.get("correspondence", ""):
+        print(json.dumps(r, indent=1)[:6000])
+        exe1, exe2, model = build(ctx)
+        amodel = build_agg_model()
+        rc, cases, e = sh2([exe2, "corr", "-seed", str(r.get("corr_seed", 2000)), "-n", str(r.get("corr_n", 400))], timeout=3000)
+        res = common.run_model(amodel, cases)
+        mism = [l for l in res if not l.startswith("OK ")]
+        print("replayed: %d mismatches" % len(mism))
+        for l in mism[:5]:
+            print(l[:600])
+        return 1 if mism else 0
+    if r.get("kind") == "failing-input" and (w.startswith("setters ") or w.startswith("file=") or w.startswith("built ")
+                                             or w.startswith("Create")):
+        # aggregate witnesses are descriptions; the search is deterministic for the recorded seed
+        print(json.dumps(r, indent=1)[:6000])
+        exe1, exe2, model = build(ctx)
+        rc, so, e = sh2([exe2, "search", "-seed", str(r.get("seed", 0)), "-n", str(6000 if ctx.tier == "thorough" else 300)], timeout=3000)
+        hit = [l for l in so.splitlines() if l.startswith("FAIL\t%s\t%s\t" % (r.get("site"), r.get("class")))]
+        for l in hit[:3]:
+            print(l[:1000])
+        return 1 if hit else 0
     return c01check.replay(ctx, path)
